@@ -593,7 +593,17 @@ pub fn check_case(ci: usize, class: usize, sub: u64, seed: u64, confs: &[Config]
 }
 
 pub fn run(cfg: &Cfg) -> Report {
-    let seed = cfg.seed;
+    let mut total = Report::new();
+    // thorough: every configuration against eight different servers (challenge, target info, CredSSP version)
+    let passes: u64 = if cfg.quick() { 1 } else { 8 };
+    for pass in 0..passes {
+        total.merge(run_pass(cfg, cfg.seed.wrapping_add(pass.wrapping_mul(0x9E37_79B9))));
+    }
+    total.count("server_variations_per_configuration", passes);
+    total
+}
+
+fn run_pass(cfg: &Cfg, seed: u64) -> Report {
     let confs = configs();
     let mut total = Report::new();
     let nconf = if cfg.quick() { 2 } else { confs.len() };
